@@ -7,6 +7,7 @@ import AiutiVerif.Buffer.Drive
 import AiutiVerif.FileLock.Drive
 import AiutiVerif.FileLock.SmallDrive
 import AiutiVerif.Cache.KeysDrive
+import AiutiVerif.Bridge.Drive
 /-!
 Model driver: reads one case per line on stdin (`<component> key=value …`), prints the
 model's answer on one line.  Imports `Model`/`Drive` files only (never a proof file).
@@ -26,6 +27,7 @@ def answer (line : String) : String :=
     else if comp == "flock" then FileLock.drive fs
     else if comp == "flocksm" then FileLock.Small.drive fs
     else if comp == "ckey" then Cache.drive fs
+    else if comp == "bridge" then Bridge.drive fs
     else if comp == "ping" then "pong"
     else "bad-component"
   | [] => "bad-component"
